@@ -13,6 +13,8 @@ Constraint IR on top of strcheck's: ("and", a, b, ...) ("or", a, b, ...) ("not",
 from __future__ import annotations
 
 import itertools
+import threading
+import time
 
 import claripy
 from hypothesis import strategies as st
@@ -21,7 +23,7 @@ from . import exprcheck, strcheck
 
 M64 = strcheck.M64
 VARS = ("s", "t")
-SUT_TIMEOUT_MS = 20000
+SUT_TIMEOUT_MS = 2000
 
 FACTORIES = {
     "SolverStrings": lambda: claripy.SolverStrings(timeout=SUT_TIMEOUT_MS),
@@ -29,6 +31,49 @@ FACTORIES = {
     "SolverCacheless": lambda: claripy.SolverCacheless(timeout=SUT_TIMEOUT_MS),
     "SolverComposite": lambda: claripy.SolverComposite(template_solver=claripy.solvers.SolverCompositeChild(timeout=SUT_TIMEOUT_MS)),
 }
+
+
+class Watchdog:
+    """Z3's sequence solver does not always honour its timeout (a check over lengths of concatenations was seen to run for
+    20 minutes with a 20 s timeout).  A daemon thread interrupts the main Z3 context when a solver call overruns; claripy then
+    raises a solver error and the step counts as 'solver gave up'."""
+
+    def __init__(self, limit_s):
+        self.limit_s = limit_s
+        self.deadline = None
+        self.fired = 0
+        self._lock = threading.Lock()
+        self._thread = None
+
+    def _loop(self):
+        import z3
+
+        while True:
+            time.sleep(0.25)
+            with self._lock:
+                d = self.deadline
+            if d is not None and time.time() > d:
+                self.fired += 1
+                z3.main_ctx().interrupt()
+                with self._lock:
+                    if self.deadline is not None:
+                        self.deadline = time.time() + 2  # again, until the call returns
+
+    def __enter__(self):
+        if self._thread is None:
+            self._thread = threading.Thread(target=self._loop, daemon=True)
+            self._thread.start()
+        with self._lock:
+            self.deadline = time.time() + self.limit_s
+        return self
+
+    def __exit__(self, *a):
+        with self._lock:
+            self.deadline = None
+        return False
+
+
+WATCHDOG = Watchdog(SUT_TIMEOUT_MS / 1000 + 2)
 
 
 def T(x):
@@ -130,14 +175,26 @@ class StrMachine:
         hist = [{"op": "add", "cs": dom_cs}, *case["history"]]
         for i, step in enumerate(hist):
             self.res.steps_run += 1
+            fired = WATCHDOG.fired
             self.step(i, step)
             if self.res.fails and stop_on_fail:
+                break
+            if WATCHDOG.fired != fired:
+                self.res.stats["abandoned_after_overrun"] = 1  # the rest of the history would mostly overrun as well
                 break
         return self.res
 
     def _call(self, i, step, fn, allow_unsat):
+        fired = WATCHDOG.fired
         try:
-            return "ok", fn()
+            with WATCHDOG:
+                return "ok", fn()
+        except KeyboardInterrupt:
+            if WATCHDOG.fired == fired:
+                raise
+            self.res.stats["solver_gave_up"] += 1  # claripy turns Z3's "interrupted" into KeyboardInterrupt
+            self.res.stats["watchdog"] = self.res.stats.get("watchdog", 0) + 1
+            return "gave_up", "interrupted"
         except claripy.errors.UnsatError:
             if not allow_unsat:
                 self.fail("UnsatError-on-satisfiable", i, step, {})
@@ -471,7 +528,24 @@ def cases(draw, max_steps=14, branch=True):
     # fragments of the domain strings make contains / prefix / indexof discriminate between members
     frags = sorted({d[:1] for d in lits if d} | {d[-1:] for d in lits if d})
     lits = sorted(set(lits) | set(frags))
-    hist = [draw(steps(names, lits, branch)) for _ in range(draw(st.integers(2, max_steps)))]
+    # keep most histories satisfiable: a drawn constraint that would leave no model (judged as if every add went to one
+    # solver, which under-counts the models of each branch) is negated three times out of four
+    envs = [dict(zip(names, combo, strict=True)) for combo in itertools.product(*[doms[n] for n in names])]
+    hist = []
+    for _ in range(draw(st.integers(2, max_steps))):
+        stp = draw(steps(names, lits, branch))
+        if stp["op"] == "add":
+            cs = []
+            for c in stp["cs"]:
+                c = T(c)
+                left = [e for e in envs if ev(c, e)]
+                if not left and draw(st.integers(0, 3)):
+                    c = ("not", c)
+                    left = [e for e in envs if ev(c, e)]
+                envs = left or envs
+                cs.append(c)
+            stp = {**stp, "cs": cs}
+        hist.append(stp)
     return {"domains": doms, "history": hist}
 
 
